@@ -447,6 +447,12 @@ def make_jobs(tier, features=("trace",), limit=None):
         jobs.append({"path": p, "variant": "orig", "config": "all_enabled", "features": feats})
         if i % 3 == 0:
             jobs.append({"path": p, "variant": "flush", "vseed": 0, "config": "default" if i % 2 else "all_enabled", "features": feats})
+    # directed: already-fixed files (few or no structural violations) with nothing but trailing blanks added, and
+    # whitespace_001 out of the way: the post-phase-1 clean up of rule_list.fix runs with no phase-1 fix before it
+    fixed = [p for p in files if ".fixed" in os.path.basename(p)]
+    (random.Random("jobs-trailing") if tier == "quick" else common.rng("jobs-trailing")).shuffle(fixed)
+    for i, p in enumerate(fixed[: (60 if tier == "quick" else 600)]):
+        jobs.append({"path": p, "variant": "trailing", "vseed": sv(i) * 1000 + i, "config": ("ws001_off", "ws001_warning")[i % 2], "features": feats})
     if limit:
         jobs = jobs[:limit]
     return jobs
